@@ -44,6 +44,7 @@ def run(chk):
     # ---- scope.sock ---------------------------------------------------------------------------------------------
     n = 0
     for q, pats in (("TCPConnector._wrap_create_connection", ("aiohappyeyeballs.start_connection(...)", "create_connection(self._loop, ...)")),
+                    ("TCPConnector._create_proxy_connection", ("proxy_resp.start(conn)",)),  # the CONNECT exchange is part of establishing the connection
                     ("TCPConnector._start_tls_connection", ("start_tls(...)",)),
                     ("UnixConnector._create_connection", ("self._loop.create_unix_connection(...)",)),
                     ("NamedPipeConnector._create_connection", ("self._loop.create_pipe_connection(...)",))):
@@ -58,7 +59,41 @@ def run(chk):
                     chk.ok("C18.scope.sock", c, f"{q}: `{K.short(c, 45)}` is inside ceil_timeout(timeout.sock_connect)")
                 else:
                     chk.violation("C18.scope.sock", c, K.short(c, 60), "async with ceil_timeout(timeout.sock_connect, ...)", f"{q}: a stalled peer during connection establishment is not bounded by sock_connect")
-    chk.expect_count("C18.scope.sock", n, 6, "network-establishing awaits")
+    chk.expect_count("C18.scope.sock", n, 7, "network-establishing awaits")
+    # ---- hunt rules (F76-F78) --------------------------------------------------------------------------------------------------------------
+    wb = repo.func(REQ, "ClientRequest._write_bytes")
+    cont = [a for a in prog.awaits_in(wb.node) if norm.raw(a.value) == "self._continue"]
+    if not cont:
+        chk.analysis_error("C18.readtimer: `await self._continue` not found in ClientRequest._write_bytes")
+    for a in cont:
+        blk = PC._block_of(K.stmt_of(a)) or []
+        before = blk[: blk.index(K.stmt_of(a))] if K.stmt_of(a) in blk else []
+        # armed by a preceding statement of the same block (possibly under `if <conn>.protocol is not None`: no protocol = connection already lost)
+        if any(M.contains(x, "$P.start_timeout()") for x in before):
+            chk.ok("C18.readtimer", a, "the sock_read timer is armed before the request waits for `100 Continue`")
+        else:
+            chk.violation("C18.readtimer", a, "await self._continue", "protocol.start_timeout() before the wait",
+                          "the read timer is started only after the body was written, i.e. after the wait for `100 Continue`: with expect100=True a server that never answers is waited for without any bound by sock_read")
+    rs = repo.func(REQ, "ClientResponse.start")
+    rearm = [c for c, _b in K.exprs(rs, "protocol.start_timeout()")]
+    if rearm and PC.has_lit(PC.pc(rearm[0]), "self._writer is None", True) is not None:
+        chk.ok("C18.readtimer", rearm[0], "after an interim (1xx) response the read timer is re-armed while the final response is awaited (only once the request is fully sent)")
+    else:
+        chk.violation("C18.readtimer", rs, "message.code < 100 or message.code > 199 or message.code == 101", "protocol.start_timeout() after skipping an interim response",
+                      "an interim response (103 Early Hints, 102, an unsolicited 100) disarms the read timer like a body-less final response; a server that stalls afterwards is never timed out by sock_read")
+    canc = [h for t in ast.walk(wb.node) if isinstance(t, ast.Try) for h in t.handlers if "asyncio.CancelledError" in PC.handler_types(h) and any("write_with_length" in norm.raw(x) for x in t.body)]
+    for h in canc:
+        if M.contains(h, "transport.abort()") or M.contains(h, "$T.abort()"):
+            chk.ok("C18.close", h, "a cancelled body upload aborts the transport (a graceful close would wait for the peer to read the rest)")
+        else:
+            chk.violation("C18.close", h, "except asyncio.CancelledError: conn.close()", "transport.abort()",
+                          "after a timeout / cancellation during the body upload the connection is closed gracefully: transport.close() waits for the write buffer to drain, which never happens with a peer that stopped reading - the socket stays open with megabytes buffered, untracked, also after session.close()")
+    dh = repo.func("aiohttp/base_protocol.py", "BaseProtocol._drain_helper")
+    for a in prog.awaits_in(dh.node):
+        if M.match(M.compile_pat("asyncio.shield($W)"), a.value) is not None:
+            chk.ok("C18.close", a, "the drain waiter shared by all senders is awaited through asyncio.shield: cancelling one sender does not cancel the others")
+        elif isinstance(a.value, ast.Name):
+            chk.violation("C18.close", a, K.short(a), "await asyncio.shield(waiter)", "every sender parked in drain awaits the same future: cancelling one of them cancels the future and all the others receive CancelledError although nobody cancelled them")
     # ---- scope.connect ---------------------------------------------------------------------------------------------
     bc = repo.func(CONN, "BaseConnector.connect")
     for pat in ("self._wait_for_available_connection($K, $T)", "self._create_connection(req, traces, timeout)"):
